@@ -15,6 +15,10 @@ Lemma src_den : Gen.C02.threshold_den = 100. Proof. reflexivity. Qed.
 Lemma src_keep : Gen.C02.events_to_keep = 1000. Proof. reflexivity. Qed.
 Lemma src_abort : Gen.C02.tally_aborts_on_error = true. Proof. reflexivity. Qed.
 Lemma src_bonded : Gen.C02.vote_requires_bonded = true. Proof. reflexivity. Qed.
+Lemma src_creator : Gen.C02.creator_bound_deposit = true /\ Gen.C02.creator_bound_batch = true /\ Gen.C02.creator_bound_sale = true.
+Proof. repeat split; reflexivity. Qed.
+Lemma creator_bound_true k : creator_bound k = true.
+Proof. unfold creator_bound. destruct src_creator as (A & B & C). rewrite A, B, C. destruct (k =? 0), (k =? 1), (k =? 2); reflexivity. Qed.
 
 (** * Lists, maps *)
 Lemma mem_In v l : mem v l = true <-> In v l.
@@ -419,17 +423,17 @@ Proof.
   apply (Inv_fire s1 a vs n h I1); [exact (inv_nodup s I _ _ _ Hin) | exact Kn | exact Kh | exact (inv_valid s I _ _ _ Hin) | exact Hf].
 Qed.
 
-Lemma vote_ok_parts s v known c : vote_ok s v known c = true ->
-  known = true /\ mem v (bonded s) = true /\ batch_precheck s c = true /\ valid_claim c = true /\
+Lemma vote_ok_parts s sg v known c : vote_ok s sg v known c = true ->
+  sg = v /\ known = true /\ mem v (bonded s) = true /\ batch_precheck s c = true /\ valid_claim c = true /\
   c_nonce c = u64 (val_last s v + 1) /\ c_height (a_claim (vote_att s c)) = c_height c.
 Proof.
-  unfold vote_ok. rewrite src_bonded. simpl. rewrite !andb_true_iff, !Z.eqb_eq. tauto.
+  unfold vote_ok. rewrite src_bonded, creator_bound_true. simpl. rewrite !andb_true_iff, !Z.eqb_eq. tauto.
 Qed.
 
-Lemma Inv_vote s v known c : Inv s -> Inv (vote s v known c).
+Lemma Inv_vote s sg v known c : Inv s -> Inv (vote s sg v known c).
 Proof.
-  intros I. unfold vote. destruct (vote_ok s v known c) eqn:Ok; [|exact I].
-  apply vote_ok_parts in Ok as (_ & _ & _ & Hv & _ & _).
+  intros I. unfold vote. destruct (vote_ok s sg v known c) eqn:Ok; [|exact I].
+  apply vote_ok_parts in Ok as (_ & _ & _ & _ & Hv & _ & _).
   assert (Hva : forall a, vote_att s c = a -> NoDup (a_votes a) /\ c_nonce (a_claim a) = c_nonce c /\ c_h (a_claim a) = c_h c).
   { intros a <-. unfold vote_att. destruct (get_att (atts s) (c_nonce c) (c_h c)) as [a0|] eqn:G.
     - apply get_att_In in G. destruct (inv_key s I _ _ _ G). split; [eapply inv_nodup; eauto | auto].
@@ -600,7 +604,7 @@ Qed.
 Lemma applied_incl_step s o : Inv s -> incl (applied s) (applied (step s o)).
 Proof.
   intros I. destruct o; simpl; try apply incl_refl.
-  - unfold vote. destruct (vote_ok _ _ _ _); apply incl_refl.
+  - unfold vote. destruct (vote_ok _ _ _ _ _); apply incl_refl.
   - apply (tally_facts s I).
   - unfold prune. destruct (_ <=? _); apply incl_refl.
   - unfold mk_batch. destruct (_ <? _); apply incl_refl.
@@ -625,7 +629,8 @@ Proof.
   rewrite run_snoc. pose proof (Inv_run ops) as I. set (s := run ops) in *.
   intros n h a v Hin Hv. destruct o; simpl in Hin; try (apply Mono; eapply IH; eauto; fail).
   - (* Vote *)
-    unfold vote in Hin. destruct (vote_ok s v0 known c) eqn:Ok; [|apply Mono; eapply IH; eauto].
+    unfold vote in Hin. destruct (vote_ok s sg v0 known c) eqn:Ok; [|apply Mono; eapply IH; eauto].
+    assert (Esg : sg = v0) by (apply vote_ok_parts in Ok; tauto). subst sg.
     simpl in Hin. apply set_att_In in Hin as [Hin|Hin]; [|apply Mono; eapply IH; eauto].
     inversion Hin; subst n h a. clear Hin. simpl in *.
     assert (Hh : c_height (a_claim (vote_att s c)) = c_height c) by (apply vote_ok_parts in Ok; tauto).
@@ -659,7 +664,7 @@ Proof. decide equality; try apply Z.eq_dec; apply bool_dec. Qed.
 Lemma applied_step_not_tally s o : o <> Tally -> applied (step s o) = applied s.
 Proof.
   intros NT. destruct o; simpl; try reflexivity; try congruence.
-  - unfold vote. destruct (vote_ok _ _ _ _); reflexivity.
+  - unfold vote. destruct (vote_ok _ _ _ _ _); reflexivity.
   - unfold prune. destruct (_ <=? _); reflexivity.
   - unfold mk_batch. destruct (_ <? _); reflexivity.
 Qed.
@@ -724,7 +729,7 @@ Qed.
 Lemma accepted_vote_was_bonded ops v c :
   accepted_vote ops v c -> exists o1 o2 known, ops = o1 ++ Vote v known c :: o2 /\ known = true /\ In v (bonded (run o1)).
 Proof.
-  intros (o1 & o2 & kn & E & Ok). exists o1, o2, kn. apply vote_ok_parts in Ok as (K & B & _).
+  intros (o1 & o2 & kn & E & Ok). exists o1, o2, kn. apply vote_ok_parts in Ok as (_ & K & B & _).
   split; [exact E|]. split; [exact K|]. now apply mem_In.
 Qed.
 
@@ -848,7 +853,7 @@ Qed.
 Lemma InvL_step s o : InvL s -> InvL (step s o).
 Proof.
   intros I. destruct o; simpl; try (apply (InvL_same s); [reflexivity..|exact I]).
-  - unfold vote. destruct (vote_ok _ _ _ _); [apply (InvL_same s); [reflexivity..|exact I] | exact I].
+  - unfold vote. destruct (vote_ok _ _ _ _ _); [apply (InvL_same s); [reflexivity..|exact I] | exact I].
   - unfold tally. apply tally_loop_inv; [|exact I]. intros. now apply InvL_fire.
   - unfold prune. destruct (_ <=? _); [exact I | apply (InvL_same s); [reflexivity..|exact I]].
   - (* MkBatch: the batch nonce is above every nonce handed out before *)
@@ -1033,7 +1038,7 @@ Proof.
   destruct o; cbn [step is_reset] in *; try discriminate; try congruence;
     try (apply Same; [repeat split | reflexivity]; fail).
   - (* Vote *)
-    unfold vote. destruct (vote_ok s v known c) eqn:Ok; [|apply Same; [apply frozen_refl | reflexivity]].
+    unfold vote. destruct (vote_ok s sg v known c) eqn:Ok; [|apply Same; [apply frozen_refl | reflexivity]].
     split; [repeat split|]. simpl.
     destruct (set_att_keeps (atts s) (c_nonce c) (c_h c)
                 (mkAtt (add_vote (a_votes (vote_att s c)) v) (a_obs (vote_att s c)) (a_claim (vote_att s c)))
@@ -1384,7 +1389,7 @@ Lemma epochs_are_resets_run s o : Inv s ->
   end.
 Proof.
   intros I. destruct o; simpl; auto.
-  - unfold vote. destruct (vote_ok _ _ _ _); simpl; auto.
+  - unfold vote. destruct (vote_ok _ _ _ _ _); simpl; auto.
   - destruct (tally_facts s I) as ((_ & _ & E1 & E2 & _) & _). auto.
   - unfold prune. destruct (_ <=? _); simpl; auto.
   - unfold mk_batch. destruct (_ <? _); simpl; auto.
@@ -1398,3 +1403,16 @@ Proof. repeat split; reflexivity. Qed.
 Lemma source_facts2 :
   Gen.C02.tally_aborts_on_error = true /\ Gen.C02.vote_requires_bonded = true /\ Gen.C02.per_chain_store_sites = 15.
 Proof. repeat split; reflexivity. Qed.
+
+(** A claim message created by another account than the validator it names is refused, whatever
+    the claim type, and changes nothing. *)
+Lemma foreign_vote_refused s sg v known c : sg <> v -> vote_ok s sg v known c = false /\ step s (VoteBy sg v known c) = s.
+Proof.
+  intros NE. assert (F : vote_ok s sg v known c = false).
+  { destruct (vote_ok s sg v known c) eqn:Ok; [|reflexivity]. apply vote_ok_parts in Ok. tauto. }
+  split; [exact F|]. simpl. unfold vote. now rewrite F.
+Qed.
+
+Lemma source_facts3 :
+  Gen.C02.creator_bound_deposit = true /\ Gen.C02.creator_bound_batch = true /\ Gen.C02.creator_bound_sale = true.
+Proof. exact src_creator. Qed.
